@@ -10,7 +10,7 @@ usage: tools/eval_seed.py <worktree> <sub> <property> [extra check ids...]   e.g
 """
 import json, os, re, shutil, subprocess, sys, time
 
-ENV = dict(os.environ, GOFLAGS='-mod=mod', GOPROXY='off', GOSUMDB='off', GOTOOLCHAIN='local')
+ENV = dict(os.environ, GOFLAGS='-mod=mod', GOPROXY='off', GOSUMDB='off', GOTOOLCHAIN='local', VERIF_NO_EVIDENCE='1')
 
 def run(cmd, cwd=None, timeout=1800):
     try:
